@@ -59,7 +59,7 @@ def C(name, params=(), kind='plain', bases=(), abstract=False, extra=False,
       pyname=None, yattrs=(), noargs_exc=False, kwonly=(),
       members=(), rejects=(), recog=None, sav=None, swe=None,
       init_raises=False, attrs_private=False, ydefaults=(), raisesif=(),
-      strmixin=False, extraann='odict'):
+      strmixin=False, extraann='odict', extramid=False):
     return {
         'name': name, 'pyname': pyname or name, 'kind': kind,
         'bases': list(bases),
@@ -77,6 +77,8 @@ def C(name, params=(), kind='plain', bases=(), abstract=False, extra=False,
         'strmixin': strmixin,
         # annotation of the _yatiml_extra parameter: 'odict' | 'none'
         'extraann': extraann,
+        # _yatiml_extra declared between the required and the optional parameters
+        'extramid': extramid,
         # class-level _yatiml_defaults: [[param, abstract value], ...]
         'hasydef': bool(ydefaults), 'ydefaults': [list(x) for x in ydefaults],
         'yattrs': list(yattrs), 'noargsexc': noargs_exc,
@@ -565,6 +567,30 @@ def models():
     ht = C('Ht', [P('b', K('Ab0'))])
     ms.append(M('absonly', [ab0, ab1, ht], [K('Ht')], keys=['b', 'x'],
                 scalars=[S_42], qn=5, tn=5, rootk='m', nodup=True, rtypes=[]))
+    # ---- a subclass that lacks a required parameter of its concrete base --------
+    sh = C('Sh', [P('kind', STR), P('n', INT)])
+    sq = C('Sq', [P('side', INT)], bases=['Sh'])
+    ms.append(M('lackparam', [sh, sq], [K('Sh'), L(K('Sh'))],
+                keys=['kind', 'n', 'side'], scalars=[S_42, S_ABC], qn=5, tn=6,
+                rtypes=[K('Sh')]))
+    # ---- an item of a List[C] attribute shared with an Any attribute ------------
+    iq = C('Iq', [P('v', INT)])
+    hc = C('Hc', [P('l', L(K('Iq'))), P('u', ANY, ['null'])])
+    ms.append(M('contany', [iq, hc], [K('Hc')], keys=['l', 'u', 'v'],
+                scalars=[S_42], qn=7, tn=7, an=8, rootk='m', nodup=True,
+                aliask=('m',), cyc=False, rtypes=[]))
+    # ---- objects nested in objects of the same class, with a sweeten hook --------
+    tf = C('Tf', [P('v', INT), P('sub', Opt(K('Tf')), ['null'])],
+           swe=['set_attr', 'k', 'str', 'abc'])
+    ms.append(M('treeswe', [tf], [K('Tf')], keys=['v', 'sub', 'k'],
+                scalars=[S_42], family='dump', qn=1, tn=1, qo=4, to=5,
+                rtypes=[]))
+    # ---- _yatiml_extra declared before the optional parameters --------------------
+    xm = C('Xm', [P('a', INT), P('o', INT, ['int', '0'])], extra=True,
+           extramid=True)
+    ms.append(M('extramid', [xm], [K('Xm')], keys=['a', 'o', 'xk'],
+                scalars=[S_42, S_7], qn=5, tn=6, qo=5, to=6, rootk='m',
+                nodup=True))
     # ---- Path and date attributes of a class (round 6) -------------------------
     pdc = C('Pd', [P('p', PATH), P('d', DATE), P('o', Opt(PATH), ['null'])])
     ms.append(M('pathdate', [pdc], [K('Pd')], rtypes=[K('Pd'), L(K('Pd'))], keys=['p', 'd', 'o'],
